@@ -593,6 +593,8 @@ class NF(object):
         self.done.append(p)
 
     def stmt(self, st, p):
+        from .summ import check_deadline
+        check_deadline()
         if isinstance(st, ast.Pass):
             return [p]
         if isinstance(st, ast.Expr):
